@@ -82,6 +82,11 @@ MUT = [
     ('EQ-single-file-iter', 'ALL', 'src/memvid/lifecycle.rs', "        let forbidden = [\"-wal\", \"-shm\", \"-lock\", \"-journal\"];\n        for suffix in forbidden {",
      "        let forbidden = [\"-wal\", \"-shm\", \"-lock\", \"-journal\"];\n        for suffix in forbidden.iter().copied() {",
      'EQUIVALENT: ensure_single_file iterates the array through iter().copied()'),
+    ('EQ-checksum-operands-swapped', 'ALL', 'src/memvid/frame.rs', "        if frame.checksum != [0u8; 32] && *blake3::hash(&buf).as_bytes() != frame.checksum {",
+     "        if [0u8; 32] != frame.checksum && frame.checksum != *blake3::hash(&buf).as_bytes() {", 'EQUIVALENT: read_frame_payload_bytes compares with the operands swapped'),
+    ('EQ-replay-cut-negated-form', 'ALL', 'src/memvid/search/api.rs', "                if frame.id > cutoff_frame {", "                if !(frame.id <= cutoff_frame) {", 'EQUIVALENT: get_replay_frame_ids writes the frame cut-off as !(id <= cutoff)'),
+    ('EQ-rename-produced', 'ALL', 'src/memvid/search/tantivy.rs', "produced", "emitted_so_far", 'EQUIVALENT: try_tantivy_search page counter renamed (replace-all)'),
+    ('EQ-staging-original-file-renamed', 'ALL', M, "original_file", "saved_live_file", 'EQUIVALENT: with_staging_lock local original_file renamed (replace-all)'),
     ('C40-end-batch-order', 'C40', M, "        self.wal.flush()?;\n        self.wal.set_skip_sync(false);", "        self.wal.set_skip_sync(false);\n        self.wal.flush()?;",
      'EQUIVALENT: end_batch restores sync before flushing (flush syncs unconditionally) - the check must stay silent'),
 ]
